@@ -316,6 +316,10 @@ class ClientCall(object):
                    ['foreign', 'foreign', 'foreign', 'own']]
         for s in scripts:
             yield {'script': s}
+        # the application re-uses one message dict: it still carries the id an earlier call wrote into it, and that
+        # earlier call's reply arrives late
+        for s in (['stale', 'own'], ['stale'], ['own']):
+            yield {'script': s, 'reused_dict': True}
 
     def run(self, inp):
         from circus.client import CircusClient
@@ -345,14 +349,29 @@ class ClientCall(object):
         c.poller = Poller()
         c.timeout = 10
         obs = {}
+        import circus.client as CC
+        fresh = []
+        real_uuid4 = CC.uuid.uuid4
+
+        def rec_uuid4():
+            u = real_uuid4()
+            fresh.append(u.hex)
+            return u
+        msg = {'command': 'list', 'properties': {}}
+        if inp.get('reused_dict'):
+            msg['id'] = 'old-call'
+        CC.uuid.uuid4 = rec_uuid4
         try:
-            r = c.call({'command': 'list', 'properties': {}})
+            r = c.call(msg)
             obs['reply'] = r
         except CallError as e:
             obs['raised'] = 'CallError'
         except Exception as e:
             obs['raised'] = type(e).__name__
+        finally:
+            CC.uuid.uuid4 = real_uuid4
         obs['call_id'] = sent[-1]['id'] if sent else None
+        obs['fresh_ids'] = fresh
         obs['sent'] = len(sent)
         return obs
 
@@ -365,6 +384,12 @@ class ClientCall(object):
                 bad.add('post[reply-bears-this-calls-id]')
         elif obs.get('raised') != 'CallError':
             bad.add('noescape')
+        # the id this call goes by is the identifier generated for it, not one found in the message
+        if obs['sent'] and obs['call_id'] not in obs.get('fresh_ids', []):
+            bad.add('inv-entry[2]:loop0')
+            bad.add('inv-entry[3]:loop0')
+            if 'reply' in obs:
+                bad.add('post[reply-bears-this-calls-id]')
         if obs['sent'] != 1:
             bad.add('post[request-carries-the-id]')
         return bad
